@@ -152,7 +152,7 @@ class Builder:
             if all(v is not None and v in (0, 1) for v in vals_) and rng.random() < 0.4:
                 opt = " ;; vdtype=bool"
             elif all(v is not None and Fraction(v).denominator == 1 for v in vals_) and rng.random() < 0.3:
-                opt = " ;; vdtype=int"
+                opt = " ;; vdtype=" + ("uint8" if all(0 <= v < 256 for v in vals_) and rng.random() < 0.5 else "int")
             self.add(f"fromvalues {r} {cl} {vs(spec.init)} {rows}" + opt)
             return r
         # delta routes need a NaN-free function; NaN pieces are cut out afterwards by a mask
